@@ -1,22 +1,28 @@
 /-
-  The shutdown window of `Tasks.stop()` (task.py), both flavours:
+  The shutdown window of `Tasks.stop()` (task.py), both flavours, together with the dirty-flag protocol
+  of `Persistence.save_sensors` (persistence.py):
 
-      self.transport.disconnect()          -- from here on `Transport.send` drops every reply
-      ... (stop the pump / cancel the connect task, cancel the save timer) ...
-      self.persistence.save_sensors()      -- the final save
+      stop():                                   save_sensors():
+        self.transport.disconnect()               if not self.need_save: return
+        ... stop the pump / cancel timers ...     self.need_save = False        # before the write
+        self.persistence.save_sensors()           write a snapshot of the network, swap it in
+                                                  (on failure: need_save = True, re-raise)
 
-  While stop() runs the message pump may still be handling lines (the threaded pump is a separate
-  thread; the asyncio flavour awaits inside stop()).  A line handled in the window changes the
-  network in memory and, only while the connection is still up, puts a reply on the wire.
-  The model keeps exactly that: a change is an opaque number, "handed" are the changes whose
-  reply went out (an id response, for C06), "file" what the last save wrote.
+  While a periodic save or stop() runs, the message pump may still be handling lines (the threaded pump
+  and the save timer are separate threads; the asyncio flavour saves in an executor thread and awaits
+  inside stop()).  A line handled at any moment changes the network in memory, marks it unsaved
+  (`alert` / `add_sensor` set need_save), and — only while the connection is still up — puts a reply on
+  the wire.  The model keeps exactly that: a change is an opaque number, `handed` are the changes whose
+  reply went out (an id response, for C06), `file` what the last completed save wrote, `snap` the
+  snapshot a running save is writing.
 -/
 namespace MySensors.StopOrder
 
 inductive Ev
   | proc (change : Nat)   -- the pump handles one more line: state changes, reply sent iff connected
   | disconnect
-  | save
+  | saveStart             -- save_sensors up to and including the serialisation of the network
+  | saveEnd               -- the serialised snapshot has replaced the file
   deriving DecidableEq, Repr
 
 structure St where
@@ -24,24 +30,47 @@ structure St where
   known : List Nat := []
   file : List Nat := []
   handed : List Nat := []
+  /-- `need_save` (a fresh Persistence object starts with it set) -/
+  dirty : Bool := true
+  snap : Option (List Nat) := none
   deriving DecidableEq, Repr
 
 def step (s : St) : Ev → St
-  | .proc c => { s with known := c :: s.known, handed := if s.connected then c :: s.handed else s.handed }
+  | .proc c => { s with known := c :: s.known, dirty := true, handed := if s.connected then c :: s.handed else s.handed }
   | .disconnect => { s with connected := false }
-  | .save => { s with file := s.known }
+  | .saveStart =>
+    match s.snap with
+    | some _ => s                                   -- one save at a time
+    | none => if s.dirty then { s with dirty := false, snap := some s.known } else s
+  | .saveEnd =>
+    match s.snap with
+    | some k => { s with file := k, snap := none }
+    | none => s
 
 def run (s : St) : List Ev → St
   | [] => s
   | e :: es => run (step s e) es
 
-/-- stop()'s own actions inside a schedule, in the order they happen -/
-def stopActions : List Ev → List Ev
-  | [] => []
-  | .proc _ :: es => stopActions es
-  | e :: es => e :: stopActions es
+/-- only pump work -/
+def OnlyProc (evs : List Ev) : Prop := ∀ e ∈ evs, ∃ c, e = .proc c
 
-/-- the order of the code as it is: disconnect first, final save last -/
-def script : List Ev := [.disconnect, .save]
+/-- stop()'s own actions, in the order of the code: disconnect, then the final save -/
+def script : List Ev := [.disconnect, .saveStart, .saveEnd]
+
+/-- the variant in which `need_save` is cleared only after the file has been swapped in -/
+def stepLate (s : St) : Ev → St
+  | .saveStart =>
+    match s.snap with
+    | some _ => s
+    | none => if s.dirty then { s with snap := some s.known } else s
+  | .saveEnd =>
+    match s.snap with
+    | some k => { s with file := k, snap := none, dirty := false }
+    | none => s
+  | e => step s e
+
+def runLate (s : St) : List Ev → St
+  | [] => s
+  | e :: es => runLate (stepLate s e) es
 
 end MySensors.StopOrder
